@@ -14,6 +14,8 @@ import (
 
 // C06: vote counting emits exactly one threshold per step, for the right value.
 //
+//verif:helper prop=C03
+//
 // Bounded model check of voteTracker.handle from the EMPTY tracker over every
 // sequence of L votes by S senders for V values (sender, value chosen
 // symbolically per vote; per-sender weight and the step threshold fully
